@@ -34,6 +34,8 @@ def corpus():
                      ("{ ...G ...F } fragment G on T { ...F @skip(if: true) } fragment F on T { a { b } }", {})]:
         for limit in (-2, 0, 1, 2):
             out.append({"text": text, "vars": vs, "limit": limit, "filter": None})
+    out.append({"text": "query Q($deep: Boolean!) { hero { name ... on T @include(if: $deep) { friends { friends { friends { name } } } } } }",
+                "calls": [{"deep": False}, {"deep": True}, {"deep": False}], "vars": {"deep": False}, "limit": 2, "filter": None})
     for text in ["{ a }", "{ a b c }", "query Q { ...F } fragment F on T { a { b { c } } }",
                  "{ a { b } a { b { c { d } } } }", "{ ... { a { b { c } } } }",
                  "{ x: a { b } x: a { c { d { a } } } }",
@@ -74,6 +76,20 @@ def generate(rng, tier):
         cases.append({"text": text, "vars": variables, "limit": rng.randint(-1, 6), "filter": flt})
         # limit -2 flags every measured operation, exposing each measured depth
         cases.append({"text": text, "vars": variables, "limit": -2, "filter": None})
+    # histories: ONE rule instance and ONE parsed document called with several variable
+    # assignments (same keys, different values steering @skip/@include across the limit)
+    nh = 60 if tier == "quick" else 800
+    made = 0
+    while made < nh:
+        text, variables = gen_exec.gen_document(rng, pdir=0.6)
+        if not variables:
+            continue
+        calls = [dict(variables)]
+        for _ in range(rng.randint(1, 3)):
+            calls.append({k: rng.choice([True, False]) for k in variables})
+        cases.append({"text": text, "calls": calls, "vars": calls[0],
+                      "limit": rng.choice([-2, -2, 0, 1, 2]), "filter": None})
+        made += 1
     maxd = 3 if tier == "quick" else 5
     for text, d in _distributions(maxd):
         for limit in ((d - 1, d) if tier == "quick" else range(0, d + 2)):
@@ -81,14 +97,15 @@ def generate(rng, tier):
     return cases
 
 
-def run_impl(case):
-    doc = parse(case["text"])
-    kw = {}
-    if case["filter"] is not None:
-        kw["operation_name"] = case["filter"]
-    rule = MaxDepthValidationRule(case["limit"], **kw)
+def _calls(case):
+    """a case is one call, or a history: the same rule instance and the same parsed
+    document object called with a sequence of variable assignments"""
+    return case["calls"] if "calls" in case else [case["vars"]]
+
+
+def _one_call(rule, doc, variables):
     try:
-        errors = rule(None, doc, case["vars"])
+        errors = rule(None, doc, variables)
     except CoercionError:
         return {"exc": "CoercionError"}
     except Exception as e:  # noqa
@@ -101,45 +118,66 @@ def run_impl(case):
     return {"flagged": flagged}
 
 
-def to_coq(case, obs):
+def run_impl(case):
     doc = parse(case["text"])
+    kw = {}
+    if case["filter"] is not None:
+        kw["operation_name"] = case["filter"]
+    rule = MaxDepthValidationRule(case["limit"], **kw)
+    outs = [_one_call(rule, doc, v) for v in _calls(case)]
+    if "calls" in case:
+        return {"history": outs}
+    return outs[0]
+
+
+def _cobs(obs):
     if "flagged" in obs:
-        o = "(ObsFlagged %s)" % ser.clist(obs["flagged"], lambda p: "(%d, %s)" % (p[0], ser.cz(p[1])))
-    elif obs["exc"] == "CoercionError":
-        o = "ObsCoercionError"
-    else:
-        o = "ObsOther"
-    return "((%s, %s, %s, %s), %s)" % (
-        ser.cdoc(doc), ser.cvars(case["vars"]), ser.cz(case["limit"]),
-        ser.copt(case["filter"], ser.cstr), o)
+        return "(ObsFlagged %s)" % ser.clist(obs["flagged"], lambda p: "(%d, %s)" % (p[0], ser.cz(p[1])))
+    if obs["exc"] == "CoercionError":
+        return "ObsCoercionError"
+    return "ObsOther"
+
+
+def to_coq(case, obs):
+    doc = ser.cdoc(parse(case["text"]))
+    outs = obs["history"] if "history" in obs else [obs]
+    calls = []
+    for v, o in zip(_calls(case), outs):
+        calls.append("((%s, %s, %s, %s), %s)" % (
+            doc, ser.cvars(v), ser.cz(case["limit"]), ser.copt(case["filter"], ser.cstr), _cobs(o)))
+    return "[" + "; ".join(calls) + "]"
 
 
 def show_expr(case, obs):
-    doc = parse(case["text"])
-    return "model_C19 (%s, %s, %s, %s)" % (
-        ser.cdoc(doc), ser.cvars(case["vars"]), ser.cz(case["limit"]),
-        ser.copt(case["filter"], ser.cstr))
+    doc = ser.cdoc(parse(case["text"]))
+    return "map model_C19 [%s]" % "; ".join(
+        "(%s, %s, %s, %s)" % (doc, ser.cvars(v), ser.cz(case["limit"]), ser.copt(case["filter"], ser.cstr))
+        for v in _calls(case))
+
+
+def _outs(obs):
+    return obs["history"] if "history" in obs else [obs]
 
 
 def nontrivial(case, obs):
     t = case["text"]
-    return "flagged" in obs and ("..." in t or "@" in t or ":" in t)
+    return all("flagged" in o for o in _outs(obs)) and ("..." in t or "@" in t or ":" in t)
 
 
 def canonical(case):
-    return (case["text"], tuple(sorted(case["vars"].items())), case["limit"], case["filter"])
+    return (case["text"], tuple(tuple(sorted(v.items())) for v in _calls(case)), case["limit"], case["filter"])
 
 
 def classify(case, obs):
-    if obs.get("exc") == "other":
+    if any(o.get("exc") == "other" for o in _outs(obs)):
         return "raises-nothing", None
+    if "calls" in case:
+        return "flags-exactly-deeper-operations (same rule instance called repeatedly)", None
     return "flags-exactly-deeper-operations", None
 
 
 def direct_checks(case, obs):
-    if obs.get("exc") == "other":
-        return [("raises-nothing: %s" % obs.get("type"), None)]
-    return []
+    return [("raises-nothing: %s" % o.get("type"), None) for o in _outs(obs) if o.get("exc") == "other"]
 
 
 def shrink(case, is_bad):
@@ -162,11 +200,12 @@ def shrink(case, is_bad):
 
 
 def extra_evidence(cases, obss):
-    flagged = sum(1 for o in obss if o.get("flagged"))
+    flagged = sum(1 for o in obss if any(x.get("flagged") for x in _outs(o)))
     return {"distribution": {
         "cases_with_flagged_operation": flagged,
+        "history_cases_same_rule_instance": sum(1 for c in cases if "calls" in c),
         "cases_with_fragments": sum(1 for c in cases if "fragment" in c["text"]),
         "cases_with_directives": sum(1 for c in cases if "@" in c["text"]),
-        "coercion_errors": sum(1 for o in obss if o.get("exc") == "CoercionError"),
+        "coercion_errors": sum(1 for o in obss if any(x.get("exc") == "CoercionError" for x in _outs(o))),
         "limits": sorted({c["limit"] for c in cases}),
     }}
